@@ -697,7 +697,7 @@ func (d *Def) Evaluation(
 	methodT := d.makeDefineMethodT(p, ctx, method, args, returnT, isBlockGiven)
 
 	// def hoge= || def [] || def []=
-	if method[len(method)-1] == '=' || method == "[]" || method == "[]=" {
+	if (len(method) > 0 && method[len(method)-1] == '=') || method == "[]" || method == "[]=" {
 		for _, arg := range args {
 			base.SetValueT(
 				methodT.DefinedFrame,
